@@ -40,7 +40,7 @@ class Menu(object):
 
 
 VAR_KINDS = ('W', 'R', 'RW', 'AUG', 'DEL', 'AND', 'OR', 'NOT', 'IFEXP', 'CMP', 'COMP', 'DEFR', 'DEFW', 'LAM', 'CALL')
-NOVAR_KINDS = ('TUP', 'ATTR', 'SUB', 'RATTR', 'RSUB', 'raise', 'S', 'PASS', 'LAMBDA', 'CALLG', 'CLASS')
+NOVAR_KINDS = ('TUP', 'ATTR', 'SUB', 'RATTR', 'RSUB', 'raise', 'S', 'PASS', 'LAMBDA', 'CALLG', 'CLASS', 'FAIL')
 
 
 def simple_stmts(menu, loop, fin):
